@@ -4,6 +4,7 @@ package main
 
 import (
 	"fmt"
+	"math"
 
 	"golang.org/x/mod/sumdb/tlog"
 )
@@ -55,7 +56,7 @@ func init() {
 		return showBool(tlog.CheckTree(x.p, x.t, x.th, x.n, x.h) == nil)
 	}
 	register(&Prop{ID: "C03", Gen: genC03, Oracle: oracleC03,
-		Rule: "every (t, n) with t <= 64 (thorough: t <= 160 plus sampled t <= 600): ProveRecord / ProveTree over a log of t records, and CheckRecord / CheckTree on the valid tuple and on mutations of every component (each proof hash: bit flip, swap two, reverse, drop first/last/middle, duplicate, extend, replace by the root / leaf; n±1, t±1, t<->n, roots swapped, leaf replaced; sizes 0, negative, n = t, n > t); random proofs of length 0-70 for sizes up to 2^63-1 including 2^62±1; non-trivial = valid tuple or one mutation from valid; distinct by op line"})
+		Rule: "every (t, n) with t <= 64 (thorough: t <= 160 plus sampled t <= 600): ProveRecord / ProveTree over a log of t records, and CheckRecord / CheckTree on the valid tuple and on mutations of every component (each proof hash: bit flip, swap two, reverse, drop first/last/middle, duplicate, extend, replace by the root / leaf; n±1, t±1, t<->n, roots swapped, leaf replaced; sizes 0, negative, n = t, n > t); degenerate-consistent tuples: every (t, n) in {-3..3, -2^63, -2^62, 2^63-1}^2 x proof in {empty, honest for the sizes clamped into range} x hashes in {equal, honest, different}; random proofs of length 0-70 for sizes up to 2^63-1 including 2^62±1; non-trivial = valid tuple or one mutation from valid; distinct by op line"})
 }
 
 type c03Tuple struct {
@@ -230,6 +231,76 @@ func c03HugeTuple(r *Rand) c03Tuple {
 	return c03Tuple{p: c03RandProof(r, k), t: t, th: c09RandHash(r), n: n, h: c09RandHash(r), what: "huge"}
 }
 
+// c03Degenerate: the class of "degenerate-consistent" tuples. Every mutation above starts from a valid
+// tuple and changes ONE component, so out-of-range sizes were only ever seen next to an honest non-empty
+// proof / honest (distinct) hashes of in-range sizes, and two out-of-range sizes were never equal to each
+// other. Missing was the whole family where the sizes are out of range but the other components are
+// consistent with each other: t == n <= 0 with an empty proof and equal hashes, t < n with the honest proof
+// of the clamped sizes, … . This is a small exhaustive sweep: every (t, n) of c03DegSizes² (−3..3 and the
+// int64 extremes) x proof in {empty, honest for the sizes clamped into range} x hashes in {equal (tree root,
+// empty-tree hash, zero hash), honest for the clamped sizes, different}. recs must have >= 4 records.
+// The honest components come from the RFC 6962 reference functions of util_tlog.go, not from the provers.
+var c03DegSizes = []int64{-3, -2, -1, 0, 1, 2, 3, math.MinInt64, -1 << 62, math.MaxInt64}
+
+func c03Clamp(v, lo, hi int64) int {
+	if v < lo {
+		return int(lo)
+	}
+	if v > hi {
+		return int(hi)
+	}
+	return int(v)
+}
+
+func c03Degenerate(r *Rand, recs []string, tree bool) []c03Tuple {
+	var out []c03Tuple
+	L := int64(4)
+	empty := rfcMTH(nil)
+	for _, t := range c03DegSizes {
+		for _, n := range c03DegSizes {
+			ct := c03Clamp(t, 1, L)
+			var cn int
+			var honestP []tlog.Hash
+			var honestH tlog.Hash
+			root := rfcMTH(recs[:ct])
+			if tree {
+				cn = c03Clamp(n, 1, int64(ct))
+				honestP = rfcProof(cn, recs[:ct])
+				honestH = rfcMTH(recs[:cn])
+			} else {
+				cn = c03Clamp(n, 0, int64(ct)-1)
+				honestP = rfcPath(cn, recs[:ct])
+				honestH = rfcLeaf(recs[cn])
+			}
+			hashes := []struct {
+				what  string
+				th, h tlog.Hash
+			}{
+				{"eq-root", root, root},
+				{"eq-empty", empty, empty},
+				{"eq-zero", tlog.Hash{}, tlog.Hash{}},
+				{"honest", root, honestH},
+				{"diff", root, tlogFlip(honestH, r.Intn(256))},
+			}
+			for pi, p := range [][]tlog.Hash{nil, honestP} {
+				if pi == 1 && len(p) == 0 {
+					continue // the honest proof is the empty one
+				}
+				for _, hs := range hashes {
+					what := "degenerate-oor"
+					if tree && t >= 1 && n >= 1 && n <= t || !tree && t >= 0 && n >= 0 && n < t {
+						what = "degenerate-inrange"
+					} else if t == n {
+						what = "degenerate-oor-equal-sizes"
+					}
+					out = append(out, c03Tuple{p: c03Clone(p), t: t, th: hs.th, n: n, h: hs.h, what: what})
+				}
+			}
+		}
+	}
+	return out
+}
+
 // c03EmitCheck emits the checker op and, for a third of the cases, the same tuple to the two
 // specification-side acceptors.
 func c03EmitCheck(g *Gen, x c03Tuple, kind string, nt bool) {
@@ -313,6 +384,16 @@ func genC03(g *Gen, n int) {
 					c03EmitCheck(g, m, "checktree", true)
 				}
 			}
+		}
+	}
+	// degenerate-consistent tuples (see c03Degenerate): out-of-range sizes with self-consistent components
+	{
+		l := c03NewLog(g.Intn(1000), 4)
+		for _, x := range c03Degenerate(g.Rand, l.recs, false) {
+			c03EmitCheck(g, x, "checkrecord", true)
+		}
+		for _, x := range c03Degenerate(g.Rand, l.recs, true) {
+			c03EmitCheck(g, x, "checktree", true)
 		}
 	}
 	// larger sampled sizes
@@ -433,7 +514,24 @@ func oracleC03(g *Gen, n int) {
 		}
 	}
 	cases := 0
+	// degenerate-consistent tuples (see c03Degenerate): exhaustive on the small scope, once per run and
+	// again for about one log in sixteen below
+	degenerate := func() {
+		recs := c09Records(g.Rand, 4)
+		for _, x := range c03Degenerate(g.Rand, recs, false) {
+			checkRecord(x, false)
+			cases++
+		}
+		for _, x := range c03Degenerate(g.Rand, recs, true) {
+			checkTree(x, false)
+			cases++
+		}
+	}
+	degenerate()
 	for cases < n {
+		if g.Chance(6) {
+			degenerate()
+		}
 		t := 1 + g.Intn(maxT)
 		if g.Chance(10) {
 			t = 1 + g.Intn(4*maxT)
